@@ -971,7 +971,7 @@ class ManyToMany:
 
     def update(self, iterable):
         """given an iterable of (key, val), add them all"""
-        if type(iterable) is type(self):
+        if isinstance(iterable, ManyToMany):
             other = iterable
             for k in other.data:
                 if k not in self.data:
